@@ -58,7 +58,7 @@ for p in props:
           "quick_cmd": f"./run.sh {i} quick",
           "thorough_cmd": f"./run.sh {i} thorough",
           "evidence_file": f"/verif/evidence/{i}.json",
-          "replay_cmd_template": "./bin/mc replay {path}",
+          "replay_cmd_template": "./run.sh replay {path}",
           "engine": "mc",
           "level_claimed": {"category": c["level"], "text": c["text"], "design_ref": c["ref"]},
           "level_note": c["note"],
